@@ -577,4 +577,21 @@ example : HC.GenC.ct_bgv_square (List.replicate 8 3) 2 2 true HC.c02v_exLevel.qs
       (HC.bgvSquare HC.c02v_exLevel (HC.unflattenCt HC.c02v_exLevel 2 (List.replicate 8 3) true 2)) :=
   HC.gs_bgv_square_eq HC.c02v_exLevel _ 2 (by decide) (by decide) (by decide)
 
+/-- GENERATED = MODEL (`bgv_multiply`, DATA LOOPS: resize, `for i in 0..dest_size { for j in 0..steps { dyadic_product_p; add_inplace_p } }`, copy back, factor
+    product; generated as `GenC.ct_bgv_multiply` over the flat buffers): for NTT-form operands of ANY sizes s1, s2 ≥ 1 = the flattened `bgvMultiply` of the
+    model, size s1 + s2 − 1, the model's factor — the `resize` refusal and every arithmetic trap included (same order of operations on both sides).
+    Hypotheses: buffer lengths = size·(l.size·l.n), at least one modulus, the product buffer addressable (`(s1+s2−1)·k·n < 2^64`), `s1 + s2 < 2^64`. -/
+theorem gen_ct_bgv_multiply_eq : type_of% @HC.gs_bgv_multiply_eq := @HC.gs_bgv_multiply_eq
+
+/-- GENERATED = MODEL (`bgv_square`, EVERY size ≥ 1, both representations): the generated dispatch / fast path, the fallback route resolved by the generated
+    `bgv_multiply` on the ciphertext and its clone (`gs_bgv_square_run`), = the flattened `bgvSquare`, size 2s − 1, the model's factor.  Composed with
+    `bgvSquare_eq` and `ctMultiplyDyadic_phase`: what the code's `bgv_square` returns has phase(x)². -/
+theorem gen_ct_bgv_square_all : type_of% @HC.gs_bgv_square_run_eq := @HC.gs_bgv_square_run_eq
+
+/-- non-vacuity: size 3 (fallback route) on the example BGV level -/
+example : HC.gs_bgv_square_run (List.replicate 12 3) 3 2 true HC.c02v_exLevel.qs.toList HC.c02v_exLevel.t HC.c02v_exLevel.n =
+    Except.map (fun c => (HC.flattenCt HC.c02v_exLevel c, 5, c.cf))
+      (HC.bgvSquare HC.c02v_exLevel (HC.unflattenCt HC.c02v_exLevel 3 (List.replicate 12 3) true 2)) :=
+  HC.gs_bgv_square_run_eq HC.c02v_exLevel _ 3 2 true (by decide) (by decide) (by decide) (by decide) (by decide)
+
 end HC.C02
